@@ -398,6 +398,17 @@ class PseudoNetCDFFile(PseudoNetCDFSelfReg, object):
             ])
 
         timeunits = self.variables[timekey].units.strip()
+        if ' since ' in timeunits:
+            # use the reference date as getTimes understands it, so that
+            # date2num inverts getTimes for every accepted spelling
+            from PseudoNetCDF.coordutil import _parse_ref_date
+            unit, base = timeunits.split(' since ')
+            try:
+                refdate = _parse_ref_date(base)
+                timeunits = '%s since %s' % (
+                    unit, refdate.strftime('%Y-%m-%d %H:%M:%S%z'))
+            except Exception:
+                pass
         calendar = getattr(self.variables[timekey], 'calendar', 'standard')
         num = date2num(time, timeunits, calendar.strip())
         return num
